@@ -1658,6 +1658,7 @@ def c14_linksz_sweep(run):
     for k in ((13, 14, 15, 17, 18, 19) if not thorough else range(13, 23)):
         sz += list(range(2 ** k - 72, 2 ** k + 9, 8 if not thorough else 4))
     sz += [maxc - 1, maxc] if not thorough else [maxc - 17, maxc - 16, maxc - 1, maxc]
+    sz += [maxc] * 4      # (the path next to the data is 1, 300, 1200, 4000 bytes long by the position in the group: the largest chunk with each)
     groups = [sz[i:i + 60] for i in range(0, len(sz), 60)]
     glines = [f'linksz {key} 120000 {len(g)} ' + ' '.join(map(str, g)) for g in groups]
     for g, (ans, _) in zip(groups, C.run_harness(glines, timeout=1800)):
@@ -2894,6 +2895,11 @@ def check_C09(run):
             for off in (offs if thorough else rng.sample(offs, 5) + [4, 12]):
                 for mode in (('fin', 'rst') if thorough or off in (4, 12) else (rng.choice(['fin', 'rst']),)):
                     cuts.append((direction, off, mode, rng.choice(['remote-src', 'remote-dest'])))
+        # the listing phase (the doer's first frames: its root, its entries, the end of the entries) is cut on every run, on either side: the boss
+        # waits there with select_ready + try_receive, not with a blocking receive
+        for off in (70, 100, 150, 200, 260):
+            for place in ('remote-src', 'remote-dest'):
+                cuts.append(('d2b', off, rng.choice(['fin', 'rst']), place))
         for k, (direction, off, mode, place) in enumerate(cuts):
             base, src, dst = mk(f'cut{k}', 1_600_000, 2)
             mark = os.path.join(base, 'cut-mark')
@@ -3732,6 +3738,16 @@ def check_C19(run):
                         problem = (f'two remotes in one run ({a_} native, 127.0.0.1 claiming aarch64; source {a_}, destination {b_}): status {r2.returncode}; the binary placed on each host '
                                    f'{"equals" if all(both.get(h_) == single.get(h_) for h_ in single) else "DIFFERS from"} the one placed there by a run of its own: {dict((h_, both.get(h_) == single.get(h_)) for h_ in single)}; {r2.stderr[-200:]}')
                         break
+            # a native remote whose host name mentions another architecture (uname -a prints the host name too): it is given the boss's own build
+            if not problem:
+                wipe()
+                line = 'Linux aarch64-build-01 5.10.0-21-arm64-compat #1 SMP Debian 5.10 x86_64 GNU/Linux'
+                r3 = subprocess.run([parent, sb.dir + '/src/', 'localhost:' + sb.dir + '/dst/', '--deploy', 'ok'], capture_output=True, text=True, env=sb.env({'FAKE_UNAME_LINE': line, 'FAKE_PER_HOST': '1'}), timeout=180)
+                f3 = sb.remote + '-localhost/rjrssync/rjrssync'
+                mark3 = open(f3, 'rb').read(16)[0xF] if os.path.exists(f3) else None
+                run.case(('deploy-misleading-host-name',), True, sample=dict(layer='L4', what='a native remote whose host name mentions another architecture', uname=line, rc=r3.returncode, mark=mark3)); run.count('deploy-misleading-host-name')
+                if r3.returncode != 0 or mark3 != 0 or not os.path.exists(sb.dir + '/dst/sub/g'):
+                    problem = f'a native x86_64 remote whose uname line is {line!r}: status {r3.returncode}, the deployed binary is {"missing" if mark3 is None else ("the boss own build" if mark3 == 0 else "ANOTHER platform binary")}; {r3.stderr[-300:]}'
             run.case(('deploy-chain',), True, sample=dict(layer='L4', what='cross-platform deployment chain (embedded lite binary upgraded and deployed, twice)', hops=hops)); run.count('deploy-chain:hops', len(hops))
             if problem:
                 run.violation(dict(kind='oracle-failed-on-implementation', oracle='the binary that deployment places on a remote starts, passes the handshake, syncs, reports the same embedded binaries as its parent and can deploy in turn', layer='L4',
